@@ -561,7 +561,10 @@ impl Connection {
                 || self.spaces[space_id].ping_pending
                 || self.spaces[space_id].immediate_ack_pending;
             if space_id == SpaceId::Data {
-                ack_eliciting |= self.can_send_1rtt(frame_space_1rtt);
+                // A STREAMS_BLOCKED frame noted by a refused `open` is written into whatever
+                // 1-RTT packet comes next
+                ack_eliciting |=
+                    self.can_send_1rtt(frame_space_1rtt) || self.streams.streams_blocked_queued();
             }
             if close {
                 // A closing packet carries only ACKs and CONNECTION_CLOSE, whatever else is
